@@ -10,9 +10,14 @@ the field values) -> end-to-end oracle: one-notation probe logs through the bina
 import calendar
 import os
 
+import glob
+import os
 from vlib import core, e2e
 
-MODS = ['S4V.Props.TimeSpec', 'S4V.Props.RegexSpec', 'S4V.Props.RegexCapture', 'S4V.Props.RegexCapture2', 'S4V.Props.RegexCapture2Auto', 'S4V.Props.PatSelSpec']
+# the generated per-row capture files (tools/mk_regexcap3.py): RegexCapture3 (index), RegexCapture3a… (parts), RegexCapture3Spec
+_RC3 = sorted(os.path.splitext(os.path.basename(p))[0] for p in glob.glob(os.path.join(os.path.dirname(os.path.abspath(__file__)), '..', '..', 'lean', 'S4V', 'Props', 'RegexCapture3*.lean')))
+MODS_BASE = ['S4V.Props.TimeSpec', 'S4V.Props.RegexSpec', 'S4V.Props.RegexCapture', 'S4V.Props.RegexCapture2', 'S4V.Props.RegexCapture2Auto', 'S4V.Props.PatSelSpec']
+MODS = MODS_BASE + ['S4V.Props.' + m for m in _RC3]
 LEVEL_NOTE = ("Proved (S4V.Props.TimeSpec over the hand model of captures_to_buffer_bytes + datetime_parse_from_str and the tables regenerated from "
               "datetime.rs): every DTPD! row has range start 0; every DTFSS set's strftime pattern is the item sequence its enum fields stand for; every "
               "zone value is +-HH:MM within 14 h, scans to that offset, case variants agree; every accepted month name maps to its month; "
@@ -247,7 +252,7 @@ def oracle_all(ctx):
 
 
 def check(ctx):
-    return core.standard_check(ctx, ['TimeTables', 'Regex', 'PatSel'], MODS, [('time', 3000, 60000), ('rgx', 12000, 150000), ('rgxr', 13000, 52000), ('patsel', 500, 6000)], oracle_all, LEVEL_NOTE, ASSUME)
+    return core.standard_check(ctx, ['TimeTables', 'Regex', 'PatSel'], MODS, [('time', 3000, 60000), ('rgx', 12000, 150000), ('rgxr', 60000, 680000), ('patsel', 500, 6000)], oracle_all, LEVEL_NOTE, ASSUME)
 
 
 def replay(ctx, data):
